@@ -393,6 +393,15 @@ fn install_incl(idt: &mut Idt, lo: u8, hi: u8) {
 fn install_excl(idt: &mut Idt, lo: u8, hi: u8) {
     set_general_handler!(idt, gh, lo..hi);
 }
+fn install_to(idt: &mut Idt, hi: u8) {
+    set_general_handler!(idt, gh, ..hi);
+}
+fn install_to_incl(idt: &mut Idt, hi: u8) {
+    set_general_handler!(idt, gh, ..=hi);
+}
+fn install_from(idt: &mut Idt, lo: u8) {
+    set_general_handler!(idt, gh, lo..);
+}
 fn install_all(idt: &mut Idt) {
     set_general_handler!(idt, gh);
 }
@@ -414,10 +423,20 @@ fn sgh_case(out: &mut Out, form: &str, lo: u8, hi: u8, populated: bool, lit: u8)
         install_other(&mut idt);
     }
     let before = raw(&idt);
-    let ok = catch(|| match form {
-        "incl" => install_incl(&mut idt, lo, hi),
-        "excl" => install_excl(&mut idt, lo, hi),
-        "all" => install_all(&mut idt),
+    // half-open forms are logged as the equivalent inclusive / exclusive pair
+    let (form, via) = match form {
+        "to" => ("excl", 1),
+        "to_incl" => ("incl", 2),
+        "from" => ("incl", 3),
+        f => (f, 0),
+    };
+    let ok = catch(|| match (form, via) {
+        (_, 1) => install_to(&mut idt, hi),
+        (_, 2) => install_to_incl(&mut idt, hi),
+        (_, 3) => install_from(&mut idt, lo),
+        ("incl", _) => install_incl(&mut idt, lo, hi),
+        ("excl", _) => install_excl(&mut idt, lo, hi),
+        ("all", _) => install_all(&mut idt),
         _ => install_lit(&mut idt, lit),
     })
     .is_some();
@@ -604,6 +623,16 @@ pub fn run_idt13(out: &mut Out, seed: u64, n: u64) {
     }
     for _ in 0..40 {
         sgh_case(out, "excl", r.below(256) as u8, r.below(256) as u8, r.chance(1, 2), 0);
+    }
+    // empty and degenerate exclusive ranges at both ends, and the half-open forms
+    for (lo, hi) in [(0u8, 0u8), (1, 0), (1, 1), (32, 32), (255, 255), (255, 0), (254, 255), (0, 1), (0, 255)] {
+        sgh_case(out, "excl", lo, hi, false, 0);
+        sgh_case(out, "excl", lo, hi, true, 0);
+    }
+    for &h in &[0u8, 1, 14, 31, 32, 33, 128, 254, 255] {
+        sgh_case(out, "to", 0, h, h % 2 == 0, 0);
+        sgh_case(out, "to_incl", 0, h, h % 2 == 1, 0);
+        sgh_case(out, "from", h, 255, h % 3 == 0, 0);
     }
     sgh_case(out, "all", 0, 255, false, 0);
     sgh_case(out, "all", 0, 255, true, 0);
